@@ -120,6 +120,8 @@ class C11(Prop):
             yield "rel-edit", g.small_cases(3, seeds=g.SMALL_SEEDS[:5], prefix="y")
         yield "rel-edit", g.history_cases(n, rng, "h")
         yield "rel-edit", g.any_cases(n // 2, rng, "a")
+        # operands that are live handles of the field itself (taken by value: must be copied)
+        yield "rel-edit", g.live_operand_cases(n // 4, rng, "l")
 
     # ------------------------------------------------------------ oracle
     def oracle(self, stream, fields, impl):
@@ -155,7 +157,7 @@ class C11(Prop):
             n = marks[m]
             if s == "PANIC":
                 if n is not None and exps[n] is None: return None      # index out of range: the API unwraps
-                return f"{ins.split('/')[0]} panics" if n is not None else f"{ins.split('/')[0]} panics while obtaining a handle or building an operand"
+                return f"{ops[n][0]}: {ins.split('/')[0]} panics" if n is not None else f"{ins.split('/')[0]} panics while obtaining a handle or building an operand"
             if n is None:
                 out = s.split(":")[0]
                 if out in ("g0", "n0") and not any(e is None for e in exps[:self.op_index(marks, m)]):
@@ -203,8 +205,11 @@ class C11(Prop):
     def frame(op, before, after):
         """unrelated entries keep their text"""
         k = op[0]
-        if k == "push":
+        if k in ("push", "push_live"):
             return None if after[:len(before)] == before else "push changed the text of an existing entry"
+        if k == "insert_live":
+            i = min(op[1], len(before))
+            return None if after[:i] + after[i+1:] == before else "insert changed the text of an existing entry (the operand was a live entry of the field)"
         if k == "insert":
             i = min(op[1], len(before))
             return None if after[:i] + after[i+1:] == before else "insert changed the text of an existing entry"
@@ -224,6 +229,13 @@ class C11(Prop):
     def known_class(self, stream, fields, impl, model, why):
         # the former class c11-handle-after-rebuild is repaired (proposed_fixes/C11-10): a handle
         # that goes stale is a violation again
+        # Relations::replace / Entry::replace called with an operand that is a LIVE handle of a
+        # field splice the node itself, so it leaves the place it came from (insert / push copy
+        # it). Only when the first failing operation is such a replace AND the faithful model
+        # shows the same records (anything else the code does there is still reported).
+        m = re.match(r"^(?:fresh handles|earlier handles|" + re.escape(STALE) + r"): (replace_live|ereplace_live): ", why or "")
+        if m and stream == "rel-edit" and model == impl:
+            return "c11-replace-live-operand-moved"
         return None
 
     def shrink_field(self, stream):
